@@ -38,6 +38,20 @@ CLAIMS = {
             'through unwrap_kiwi_future, plum_to_kiwi_future, Process._schedule_rpc, create_task and CancellableAction on all orders up to depth 4.',
             'DESIGN.md section 4 C20', COMMON_NOTE + 'PARTIAL: single thread only (levels completed by the harness thread, loop drained after each event); no theorem about completion from a second OS thread; the consumer does not cancel the adapter future.',
             'Coq proof: invariant over completion sequences (unwrap), functional spec of CancellableAction + vm_compute correspondence'),
+    'C14': ('Machine-checked proof (Coq) that both persister models refine the abstract (pid, tag) -> snapshot map operation by operation over every '
+            'history (in-memory: unconditionally; pickle: for separator-free ids/tags, using injectivity of pickle_filename, also proved), hence are '
+            'observationally equivalent; and that the map has the snapshot-store laws the property names (latest save wins, list = stored keys, delete '
+            'idempotent and local, delete-by-pid exact). Tied to the code by running both real persisters with real, progressing WorkChains on '
+            'generated histories, including mutation of loaded bundles/processes between operations.',
+            'DESIGN.md section 4 C14', COMMON_NOTE + 'PARTIAL: pickle, os.walk/fnmatch and the file system are a finite map from file name to content (hypothesis); missing key canonicalised to NotFound for KeyError and FileNotFoundError.',
+            'Coq proof: refinement of both persisters to an abstract map + vm_compute correspondence'),
+    'C15': ('Machine-checked proof (Coq) that the string-level absorb algorithm (startswith / strip first level / recurse) computes exactly the '
+            'component-level selection by include/exclude rules for every source tree with separator-free names and every antichain rule set, with a '
+            'pointwise characterisation (leaf exposed iff selected; namespace iff it and its ancestors are selected, with the source properties), that '
+            'other destination ports stay, that include+exclude is rejected and that namespace options override exactly the named properties. Tied to '
+            'the code by real ProcessSpec.expose_inputs/outputs on ~2k generated cases with prefix-sharing names (a/ab/abc).',
+            'DESIGN.md section 4 C15', COMMON_NOTE + 'Independence of the copy (no shared objects) is outside the functional model: checked on the implementation by identity and mutate-and-compare probes in the oracle.',
+            'Coq proof: string-level absorb = component-level selection + vm_compute correspondence'),
 }
 
 NOT_YET = 'check under construction in this build session (model/theorems not committed yet); see DESIGN.md section 4'
